@@ -1041,6 +1041,43 @@ func runC04Child(t gen.Tier, r *gen.Rng, rep *Reporter) {
 		c.fieldUnpack("field-zero-progress", spec, []byte("123"))
 	}
 
+	// S7b: UnmarshalJSON of every field kind called directly (encoding/json validates a document before it
+	// hands it to the method; a direct caller does not): every byte string of up to three characters over
+	// the characters JSON gives a meaning to, and a few longer ones
+	{
+		alpha := []byte{'"', '\\', '{', '}', '[', ']', ':', ',', 'n', '0', '\'', '`', ' ', 'A', 0x00, 0xFF}
+		var docs [][]byte
+		docs = append(docs, nil)
+		for _, a := range alpha {
+			docs = append(docs, []byte{a})
+			for _, b := range alpha {
+				docs = append(docs, []byte{a, b})
+				if t.Thorough || (a == '"' || b == '"' || a == '\\') {
+					for _, d := range alpha {
+						docs = append(docs, []byte{a, b, d})
+					}
+				}
+			}
+		}
+		docs = append(docs, []byte(`"\u00`), []byte(`"\`), []byte("null"), []byte(`"00"`), []byte(`{"01":"a"}`), []byte(`{"01":`), []byte(`"4242=2408201X"`))
+		for _, kind := range impl.DirectJSONKinds {
+			for _, d := range docs {
+				doc := d
+				w := fmt.Sprintf("W %d U %s ujson %s", npWatchMs, kind, gen.H(doc))
+				c.guard("direct-json "+kind, "", w, len(doc), func() string {
+					f := impl.DirectJSONTarget(kind)
+					if f == nil {
+						return "err"
+					}
+					if err := f.UnmarshalJSON(doc); err != nil {
+						return "err"
+					}
+					return "ok"
+				})
+			}
+		}
+	}
+
 	// S8: what decoding leaves behind in the process, and decoding in several goroutines at once.
 	// The messages are independent (every call has its own field object; only the read-only spec
 	// and whatever the library keeps at package level is shared) and carry tags never seen before.
